@@ -13,7 +13,7 @@ ID = 'C01'
 BOUNDS = {'quick': 5, 'thorough': 6}
 OPS = tuple(o for o in sh.LOGICAL if o != 'XOR')
 # name classes a quoted UVL identifier can carry (no '"', '.', CR/LF)
-UVL_NAME_CLASSES = ('digit', 'underscore', 'space', 'punct', 'uvlkw', 'opword', 'nonascii', 'xml', 'ws-edge')
+UVL_NAME_CLASSES = ('digit', 'underscore', 'space', 'punct', 'uvlkw', 'opword', 'nonascii', 'xml', 'ws-edge', 'rare', 'unicode-edge')
 
 
 class UVLFormat(rt.Format):
@@ -117,6 +117,16 @@ def cases(tier, seed):
         yield ('K', cm.on_carrier([t]))
     for t in cm.arith_trees():
         yield ('K', cm.on_carrier([t]))
+    from . import families
+    for m in families.models():
+        if in_fragment(m):
+            yield ('S', m)
+    for m in rt.collision_models():
+        if not any('"' in n or '.' in n for n in sh.names(m)):
+            yield ('D', m)
+    for t in families.deep_trees():
+        if 'XOR' not in sh.tree_ops(t):
+            yield ('K', cm.on_carrier([t]))
     k1 = [t for t in cm.k1() if 'XOR' not in sh.tree_ops(t)]
     step = 7 if tier == 'quick' else 3
     for t1 in k1[::step]:
